@@ -24,7 +24,7 @@ def _chain(e: ast.AST) -> Tuple[ast.AST, List[ast.Call]]:
 def rule_r1(ctx) -> List[R.Inst]:
     M = ctx.M
     rid = "C19.R1"
-    fn = M.fn(DOM)
+    fn = M.nfn(DOM, subst=True, keep=("bpms", "s"))
     file = M.mods[fn.mod].rel
     rets = [n for n in walk_no_nested(fn.node) if isinstance(n, ast.Return) and n.value is not None]
     if len(rets) != 1:
@@ -220,50 +220,122 @@ def rule_r2(ctx) -> List[R.Inst]:
 def rule_r3(ctx) -> List[R.Inst]:
     M = ctx.M
     rid = "C19.R3"
-    fn = M.fn(NORM)
+    keep = tuple(sorted({n.targets[0].id for n in ast.walk(M.fn(NORM).node) if isinstance(n, ast.Assign) and
+                         isinstance(n.targets[0], ast.Name) and any(isinstance(c, ast.Call) and call_name(c) == "dominant_bpm"
+                                                                    for c in ast.walk(n.value))}))
+    fn = M.nfn(NORM, subst=True, keep=keep)      # (the reference keeps its name)
     file = M.mods[fn.mod].rel
     insts = []
-    src = [n for n in walk_no_nested(fn.node) if isinstance(n, ast.Assign) and isinstance(n.targets[0], ast.Name) and
-           ".bpms.df" in unparse(n.value)]
-    if len(src) != 1:
-        return [R.undec(rid, "one-row-per-tempo", file, fn.node.lineno, "tempo frame not found")]
-    df = src[0].targets[0].id
-    root, calls = _chain(src[0].value)
-    if unparse(root).endswith(".bpms.df") and all(c.func.attr in ("copy",) for c in calls):
-        insts.append(R.ok(rid, "one-row-per-tempo", file, src[0].lineno, idiom="a copy of the tempo frame: one row per tempo point, at its time"))
+    rets = [n for n in walk_no_nested(fn.node) if isinstance(n, ast.Return) and n.value is not None]
+    # the returned list is built from <frame>.loc[:, <columns>]
+    a = rets[-1].value.args[0] if rets and isinstance(rets[-1].value, ast.Call) and rets[-1].value.args else None
+    is_loc = isinstance(a, ast.Subscript) and isinstance(a.value, ast.Attribute) and a.value.attr == "loc"
+    base = a.value.value if is_loc else None
+    # resolve the frame expression: a local bound once (plus its column stores), down to a chain rooted in <chart>.bpms.df
+    frame_names = set()
+    stores = []           # (column, value expr, node)
+    cur = base
+    hops = 0
+    extra_ops: List[str] = []      # operations of re-bindings `nm = nm.<op>(...)` applied after the first definition
+
+    def unroll(e):
+        """(root, [op names]) of x.a(..).loc[:, C].b(..): `.loc[:, C]` is the column projection 'project', any other subscript 'index'"""
+        ops = []
+        while True:
+            if isinstance(e, ast.Call) and isinstance(e.func, ast.Attribute):
+                ops.insert(0, (e.func.attr, e))
+                e = e.func.value
+            elif isinstance(e, ast.Subscript):
+                full_rows = isinstance(e.value, ast.Attribute) and e.value.attr == "loc" and isinstance(e.slice, ast.Tuple) and \
+                    len(e.slice.elts) == 2 and isinstance(e.slice.elts[0], ast.Slice) and e.slice.elts[0].lower is None and \
+                    e.slice.elts[0].upper is None and e.slice.elts[0].step is None
+                ops.insert(0, ("project" if full_rows else "index", e))
+                e = e.value.value if isinstance(e.value, ast.Attribute) and e.value.attr in ("loc", "iloc") else e.value
+            else:
+                return e, ops
+    all_ops = []
+    while isinstance(cur, ast.Name) and hops < 4:
+        hops += 1
+        nm = cur.id
+        frame_names.add(nm)
+        defs = sorted((n for n in walk_no_nested(fn.node) if isinstance(n, ast.Assign) and isinstance(n.targets[0], ast.Name) and
+                       n.targets[0].id == nm), key=lambda n: (n.lineno, n.col_offset))
+        for n in walk_no_nested(fn.node):
+            if isinstance(n, ast.Assign) and FO.col_ref(n.targets[0], nm) is not None:
+                stores.append((FO.col_ref(n.targets[0], nm), n.value, n))
+        cur = None
+        if defs:
+            later = []
+            okdefs = True
+            for d_ in defs[1:]:
+                r_, ops_ = unroll(d_.value)
+                if isinstance(r_, ast.Name) and r_.id == nm:
+                    later += ops_
+                else:
+                    okdefs = False
+            if okdefs:
+                cur = defs[0].value
+                all_ops = later + all_ops
+    root, ops0 = unroll(cur) if cur is not None else (None, [])
+    all_ops = ops0 + all_ops
+    calls = [c for (nm_, c) in all_ops if isinstance(c, ast.Call)]
+    extra_ops = [nm_ for (nm_, c) in all_ops if nm_ == "index" or (isinstance(c, ast.Call) and nm_ not in ("copy", "assign"))]
+    if root is None or not unparse(root).endswith(".bpms.df"):
+        insts.append(R.undec(rid, "one-row-per-tempo", file, fn.node.lineno, "tempo frame not found"))
+        root_txt = None
     else:
-        insts.append(R.viol(rid, "one-row-per-tempo", file, src[0].lineno,
-                            "normalisation must return one SV per tempo point at its time: the tempo frame may not be filtered/reshaped",
-                            construct=unparse(src[0].value)))
+        root_txt = unparse(root)
+        frame_names.add(root_txt)
+        shape_ops = extra_ops
+        if not shape_ops:
+            insts.append(R.ok(rid, "one-row-per-tempo", file, root.lineno, idiom="a copy of the tempo frame (copy / assign): one row per tempo point, at its time"))
+        else:
+            insts.append(R.viol(rid, "one-row-per-tempo", file, root.lineno,
+                                "normalisation must return one SV per tempo point at its time: the tempo frame may not be filtered/reshaped",
+                                construct=f"tempo frame passes through {shape_ops}"))
+        for c in calls:
+            if c.func.attr == "assign":
+                for k in c.keywords:
+                    v = k.value
+                    if isinstance(v, ast.Lambda) and len(v.args.args) == 1:
+                        frame_names.add(v.args.args[0].arg)
+                        v = v.body
+                    stores.append((k.arg, v, c))
     ref = None
     for n in walk_no_nested(fn.node):
         if isinstance(n, ast.Assign) and isinstance(n.targets[0], ast.Name) and any(
                 isinstance(c, ast.Call) and call_name(c) == "dominant_bpm" for c in ast.walk(n.value)):
             ref = n.targets[0].id
-    mul = [n for n in walk_no_nested(fn.node) if isinstance(n, ast.Assign) and FO.col_ref(n.targets[0], df) == "multiplier"]
+    mul = [(v, n) for (c, v, n) in stores if c == "multiplier"]
+
+    def col_of(n):
+        if isinstance(n, ast.Attribute) and unparse(n.value) in frame_names:
+            return n.attr
+        if isinstance(n, ast.Subscript) and unparse(n.value) in frame_names and isinstance(n.slice, ast.Constant):
+            return n.slice.value
+        return None
     if len(mul) != 1 or ref is None:
         insts.append(R.undec(rid, "multiplier", file, fn.node.lineno, "multiplier assignment not found"))
     else:
-        lf = lambda n: ("BPM" if FO.col_ref(n, df) == "bpm" else ("REF" if unparse(n) == ref else None))   # noqa: E731
-        r = sym.canon(mul[0].value, lf)
+        lf = lambda n: ("BPM" if col_of(n) == "bpm" else ("REF" if unparse(n) == ref else None))   # noqa: E731
+        r = sym.canon(mul[0][0], lf)
         if r.same(sym.parse("REF / BPM")):
-            insts.append(R.ok(rid, "multiplier", file, mul[0].lineno, idiom="multiplier = reference / bpm  (multiplier * bpm = reference)"))
+            insts.append(R.ok(rid, "multiplier", file, mul[0][1].lineno, idiom="multiplier = reference / bpm  (multiplier * bpm = reference)"))
         elif r.symbols() <= {"REF", "BPM"}:
-            insts.append(R.viol(rid, "multiplier", file, mul[0].lineno,
+            insts.append(R.viol(rid, "multiplier", file, mul[0][1].lineno,
                                 "the multiplier times the tempo point's bpm must equal the reference bpm: multiplier = reference / bpm",
-                                construct=unparse(mul[0])))
+                                construct=f"multiplier = {unparse(mul[0][0])}"))
         else:
-            insts.append(R.undec(rid, "multiplier", file, mul[0].lineno, "multiplier formula not in modelled arithmetic"))
+            insts.append(R.undec(rid, "multiplier", file, mul[0][1].lineno, "multiplier formula not in modelled arithmetic"))
     # projection onto the SV list's declared columns, which must exist in tempo columns + multiplier
-    rets = [n for n in walk_no_nested(fn.node) if isinstance(n, ast.Return) and n.value is not None]
-    proj_ok = False
-    if rets and isinstance(rets[-1].value, ast.Call) and rets[-1].value.args:
-        a = rets[-1].value.args[0]
-        proj_ok = isinstance(a, ast.Subscript) and isinstance(a.value, ast.Attribute) and a.value.attr == "loc" and \
-            unparse(a.value.value) == df and ".df.columns" in unparse(a.slice)
-    insts.append(R.ok(rid, "projection", file, rets[-1].lineno, idiom="SvList(frame.loc[:, <declared columns of the SV list>])") if proj_ok else
-                 R.viol(rid, "projection", file, (rets[-1] if rets else fn.node).lineno,
-                        "the result must be the tempo frame projected onto the SV list's declared columns", construct=unparse(rets[-1].value) if rets else ""))
+    proj_ok = is_loc and root_txt is not None and ".df.columns" in unparse(a.slice)
+    if proj_ok or (is_loc and root_txt is None):
+        insts.append(R.ok(rid, "projection", file, rets[-1].lineno, idiom="SvList(frame.loc[:, <declared columns of the SV list>])") if proj_ok else
+                     R.undec(rid, "projection", file, rets[-1].lineno, "projected frame not resolved"))
+    else:
+        insts.append(R.viol(rid, "projection", file, (rets[-1] if rets else fn.node).lineno,
+                            "the result must be the tempo frame projected onto the SV list's declared columns",
+                            construct=unparse(rets[-1].value)[:160] if rets else ""))
     for game, chart in (("osu", "reamber.osu.OsuMap.OsuMap"), ("qua", "reamber.quaver.QuaMap.QuaMap")):
         slots = M.map_slots(chart)
         sv_cols = set(M.list_columns(slots["svs"]))
@@ -284,7 +356,7 @@ def rule_r4(ctx) -> List[R.Inst]:
     rid = "C19.R4"
     insts = []
     for q in (SPEED, NORM):
-        fn = M.fn(q)
+        fn = M.nfn(q, ifexp=True)
         file = M.mods[fn.mod].rel
         ov = [p for p in params_of(fn.node) if "override" in p]
         key = f"{fn.name}:override"
